@@ -790,7 +790,7 @@ def gen_deadlock(rng):
     deadlock deterministically (a model that sends itself capacity+1 events from one handler), orphan
     and dropped mailboxes."""
     kind_ = rng.choice(["self_query", "transitive_query", "sub_query", "self_saturate", "orphan", "orphan_query", "clean",
-                        "mixed_query", "mixed_saturate"])
+                        "mixed_query", "mixed_saturate", "twin_query", "twin_query"])
     cap = rng.choice([1, 2, 3])
     mk = lambda **kw: dict({"cap": cap, "handlers": [[], [], []], "repliers": [([], 1), ([], 2)], "outs": [], "reqs": []}, **kw)
     models = [mk(), mk(), mk()]
@@ -809,6 +809,23 @@ def gen_deadlock(rng):
         v = rng.choice([1, 2])
         models[v]["reqs"] = [[("all", 0, v, 0, 0)]]; models[v]["handlers"][1] = [("qry", 0, "in")]
         roots = [("pe", v, 1, 5)]
+    elif kind_ == "twin_query":
+        # TWO (or three) models stuck at once with different numbers of queued messages; some or all of them
+        # unnamed (reported as <unknown>) or unnamed sub-models of one parent: names in a report need not be unique
+        k = rng.randint(0, max(0, cap - 1))
+        models[0]["outs"] = [[("all", 0, ("m", 1, 1))], [("all", 0, ("m", 0, 0))], [("all", 0, ("m", 2, 1))]]
+        models[0]["reqs"] = [[("all", 0, 0, 0, 0)]]
+        third = rng.random() < 0.4
+        models[0]["handlers"][1] = [("snd", 0, "in")] + ([("snd", 2, "in")] if third else []) + [("snd", 1, "in")] * k + [("qry", 0, "in")]
+        for v in (1, 2):
+            models[v]["reqs"] = [[("all", 0, v, 0, 0)]]; models[v]["handlers"][1] = [("qry", 0, "in")]
+        shape = rng.choice(["top", "top", "sub"])
+        if shape == "sub":
+            models[1]["parent"] = 0; models[2]["parent"] = 0
+        for v in ((1, 2) if shape == "sub" else (0, 1, 2)):
+            if rng.random() < 0.75:
+                models[v]["named"] = False
+        roots = [("pe", 0, 1, 5)]
     elif kind_ == "self_saturate":
         models[0]["outs"] = [[("all", 0, ("m", 0, 0))]]
         models[0]["handlers"][1] = [("snd", 0, "in")] * (cap + 1)
@@ -939,3 +956,33 @@ def gen_timeout(rng):
         else: cmds.append(("pq", rng.randrange(n), 0, 4))
     return {"models": models, "sinks": [], "mode": "seq", "tags": {"timeout"}, "threads": 1, "t0": 0, "clock": [], "sources": [],
             "cmds": cmds, "slow_cmd": slow}
+
+
+def gen_norecip_broadcast(rng):
+    """C11: a send to a dropped mailbox through a port that ALSO feeds live models, some of whose mailboxes are full
+    at that moment (filled just before through another port of the same handler): the broadcast cannot complete at
+    its first poll, and the missing recipient must still be reported (NoRecipient naming the sender) however the
+    other sub-sends complete.  Connection order of the dead and the live recipients varies."""
+    n_live = rng.randint(1, 3)
+    cap = rng.choice([1, 1, 2])
+    emitter = {"cap": 4, "handlers": [[], [], []], "repliers": [([], 0), ([], 7)], "outs": [], "reqs": [], "init": []}
+    lives = [{"cap": cap, "handlers": [[], [], []], "repliers": [([], 0), ([], 7)], "outs": [], "reqs": [], "init": []} for _ in range(n_live)]
+    dead = {"cap": 2, "place": 2, "handlers": [[], [], []], "repliers": [([], 0), ([], 7)], "outs": [], "reqs": [], "init": []}
+    models = [emitter] + lives + [dead]
+    di = len(models) - 1
+    fill = [("all", 0, ("m", 1 + i, 0)) for i in range(n_live)]
+    mixed = [("all", rng.choice([0, 1]), ("m", 1 + i, 1)) for i in range(n_live)]
+    mixed.insert(rng.randint(0, len(mixed)), ("all", 0, ("m", di, 0)))
+    emitter["outs"] = [fill, mixed]
+    emitter["handlers"][0] = [("snd", 0, "in")] * cap + [("snd", 1, ("ip", 1))]
+    cmds = []
+    if rng.random() < 0.5:
+        cmds.append(("pe", rng.randint(1, n_live), 2, 3))
+    if rng.random() < 0.5:
+        cmds.append(("pe", 0, 0, 10))
+    else:
+        cmds += [("se", ("a", 10), 0, 0, 10, None, None), ("st",)]
+    for _ in range(rng.randint(1, 3)):
+        cmds.append(rng.choice([("st",), ("pe", 1, 2, 4), ("su", ("a", 50))]))
+    return {"models": models, "sinks": [], "mode": "multiset", "tags": {"norecip-broadcast"}, "threads": 1, "t0": 0, "clock": [],
+            "sources": [], "cmds": cmds}
